@@ -293,25 +293,47 @@ def r4_cursor_progress(ctx, rep):
            "QUOTES_RE can match the empty string: the masking loops would not advance", py.nloc(node))
     # loops: while ... QUOTES_RE.search(X[search_from:]) ... search_from += <match>.end(0)
     n = 0
+    def quote_search(c) -> bool:
+        return isinstance(c, ast.Call) and call_name(c).split(".")[-2:] == ["QUOTES_RE", "search"]
     for mod_, fn in py.all_functions():
         if mod_ != "sourceform":
             continue
         for w in ast.walk(fn):
-            if isinstance(w, ast.While) and "QUOTES_RE.search(" in ast.unparse(w.test) and "search_from" in ast.unparse(w.test):
-                n += 1
-                incs = [s for s in ast.walk(w) if isinstance(s, ast.AugAssign) and isinstance(s.op, ast.Add)
-                        and ast.unparse(s.target) == "search_from"]
-                ok = len(incs) == 1 and ".end(0)" in ast.unparse(incs[0].value) and incs[0] in w.body
-                # the increment must be computed on the text *after* substitution (the placeholder), i.e. from a
-                # fresh search, not from the match object taken before the replacement
-                fresh = ok and "QUOTES_RE.search(" in ast.unparse(incs[0].value) or \
-                    ok and re.search(r"next_match\.end\(0\)", ast.unparse(incs[0].value)) is not None
-                rep.ob(f"masking loop in {py.qualname(fn)}@{['pre', 'attr', 'bind', 'init'][min(n - 1, 3)]}{n}", ok and fresh,
-                       "search_from advances by the end of a fresh match on the rewritten text, unconditionally in "
-                       "the loop body" if ok and fresh else
-                       ("search_from advances by the end of the match taken *before* the literal was replaced by its "
-                        "shorter placeholder: the cursor overshoots and a following literal is skipped (left unmasked)"
-                        if ok else "search_from is not advanced exactly once per iteration"), py.nloc(w))
+            if not isinstance(w, ast.While):
+                continue
+            # cursor: the name used as lower bound of the slice that the loop test searches
+            cursors = {sl.slice.lower.id for c in ast.walk(w.test) if quote_search(c) for sl in ast.walk(c)
+                       if isinstance(sl, ast.Subscript) and isinstance(sl.slice, ast.Slice) and isinstance(sl.slice.lower, ast.Name)}
+            if len(cursors) != 1:
+                continue
+            cur = cursors.pop()
+            n += 1
+            incs = [s_ for s_ in ast.walk(w) if isinstance(s_, ast.AugAssign) and isinstance(s_.op, ast.Add)
+                    and isinstance(s_.target, ast.Name) and s_.target.id == cur]
+            ends = [c for i in incs for c in ast.walk(i.value) if isinstance(c, ast.Call) and isinstance(c.func, ast.Attribute)
+                    and c.func.attr == "end"]
+            ok = len(incs) == 1 and bool(ends) and incs[0] in w.body
+            # the increment must be computed on the text *after* substitution (the placeholder), i.e. from a fresh search,
+            # not from the match object taken before the replacement
+            subs = [a_ for a_ in ast.walk(w) if isinstance(a_, ast.Assign) and any(
+                isinstance(c, ast.Call) and isinstance(c.func, ast.Attribute) and c.func.attr == "sub" for c in ast.walk(a_.value))]
+            def is_fresh(recv) -> bool:
+                if quote_search(recv):
+                    return True
+                if isinstance(recv, ast.Name):
+                    defs = [d for d in ast.walk(w) if (isinstance(d, ast.NamedExpr) and d.target.id == recv.id)
+                            or (isinstance(d, ast.Assign) and any(isinstance(t, ast.Name) and t.id == recv.id for t in d.targets))]
+                    defs = [d for d in defs if not any(d is x for x in ast.walk(w.test))]
+                    return bool(defs) and bool(subs) and all(d.lineno > max(s_.lineno for s_ in subs) and
+                                                              any(quote_search(c) for c in ast.walk(d.value)) for d in defs)
+                return False
+            fresh = ok and all(is_fresh(c.func.value) for c in ends)
+            rep.ob(f"masking loop in {py.qualname(fn)}@{['pre', 'attr', 'bind', 'init'][min(n - 1, 3)]}{n}", ok and fresh,
+                   "the cursor advances by the end of a fresh match on the rewritten text, unconditionally in "
+                   "the loop body" if ok and fresh else
+                   ("the cursor advances by the end of the match taken *before* the literal was replaced by its "
+                    "shorter placeholder: the cursor overshoots and a following literal is skipped (left unmasked)"
+                    if ok else "the cursor is not advanced exactly once per iteration"), py.nloc(w))
     if n < 3:
         raise AnalysisError(f"only {n} QUOTES_RE masking loops found")
 
